@@ -99,6 +99,11 @@ CHECKS = {
     text="Polyploid cases (ploidy 2-6, tri-allelic sites, collapsed haplotypes, uneven depth, noisy reads, -B 0..5, --use-prephasing) are phased in-process; each phased genotype must be a permutation of the input genotype, only heterozygous calls may be phased, the rest of the VCF must be unchanged, and per sample the PS labels must form contiguous runs named by a read-covered heterozygous variant between the previous block and the block's first phased variant.",
     note="Validity of a heuristic's output only; read coverage is recomputed from the generator's read geometry with the tool's own filter (>= 2 fully covered heterozygous variants).",
     ref="DESIGN.md section 4, C15"),
+ "C16": dict(
+    technique="differential testing over configurations: generated tie-heavy cases executed as real subprocesses under different PYTHONHASHSEED values, thread counts and repetitions; outputs compared byte for byte (minus the recorded command line)",
+    text="For every subcommand that writes a VCF, BAM or TSV the harness generates small ambiguity-rich cases (noisy equal-weight reads, read-free pedigree sites, read clouds spanning phase sets, polyploid inputs) and runs `python -m whatshap` 2-4 times with different hash seeds, --threads (polyphase) and --output-threads (haplotag); every output file must equal that of the first execution.",
+    note="Hash seed, thread counts and repetition are controlled; the OS schedule of worker processes is only sampled. Set/dict-order and object-address dependence are exactly what these variations expose.",
+    ref="DESIGN.md section 4, C16"),
 }
 
 NOT_YET = {}
